@@ -1,6 +1,6 @@
 (* Proofs/LagrDefs.v — MathComp-side vocabulary for the interpolator theorems (no proofs). *)
 From mathcomp Require Import all_ssreflect all_algebra.
-From AmiscV Require Import Field Lagr.
+From AmiscV Require Import Misc Field Lagr.
 Set Implicit Arguments. Unset Strict Implicit. Unset Printing Implicit Defensive.
 Import GRing.Theory Num.Theory.
 Local Open Scope ring_scope.
@@ -109,6 +109,15 @@ Definition amap (a b : F) (xs : seq F) : seq F := [seq a * t + b | t <- xs].
 Definition gmap (ab : seq (F * F)) (gs : seq (grid (F:=F))) : seq (grid (F:=F)) :=
   [seq (p.1.1 * p.2.1, (amap p.1.1 p.1.2 p.2.2.1, p.2.2.2)) | p <- zip ab gs].
 Definition xmap (ab : seq (F * F)) (x : seq F) : seq F := [seq p.1.1 * p.2 + p.1.2 | p <- zip ab x].
+
+(* the terms Component.predict sums for the monomial prod x_k^(m_k): one per index of the set in use, with its weight from
+   the weight tree of Model/Misc.v *)
+Definition misc_terms (na kpl : nat) (nodes : nat -> seq F) (tol : nat -> F) (wts : nat -> nat -> seq F)
+    (m : seq nat) (S : seq (seq nat)) (c : Misc.tree) : seq (F * (seq (grid (F:=F)) * seq F)) :=
+  [seq (z2r F (Misc.coeff c i),
+        (index_grids na kpl nodes tol wts i,
+         tensor_data (index_grids na kpl nodes tol wts i) [seq (fun t : F => t ^+ e) | e <- m]))
+  | i <- S].
 
 Definition all_admissible (gs : seq (grid (F:=F))) (x : seq F) : Prop :=
   size x = size gs /\
